@@ -92,6 +92,9 @@ type flowEngine struct {
 	fieldLoad map[string][]ssa.Value // "T.F" -> load / address values in module functions
 	callSites map[*ssa.Function][]*ssa.Call
 	indexed   bool
+	cuts      int
+	fieldDir  map[string]map[string]flabel // field -> sinks reached directly from its reads
+	fieldEdge map[string]map[string]bool   // field -> fields its read values are stored into
 }
 
 func newFlowEngine(p *Prog, cg *CallGraph) *flowEngine {
@@ -702,9 +705,11 @@ func (e *flowEngine) summary(fn *ssa.Function, idx int, depth int) *flowSummary 
 		return m
 	}
 	if e.inProg[k] || depth > 40 {
+		e.cuts++ // recursion cut: whatever is being computed up the stack is incomplete
 		return newSummary()
 	}
 	e.inProg[k] = true
+	cutsBefore := e.cuts
 	var seed ssa.Value
 	if idx < len(fn.Params) {
 		seed = fn.Params[idx]
@@ -718,6 +723,9 @@ func (e *flowEngine) summary(fn *ssa.Function, idx int, depth int) *flowSummary 
 		sum = e.forward(fn, map[ssa.Value]flabel{seed: lRaw}, depth)
 	}
 	delete(e.inProg, k)
+	_ = cutsBefore
+	// summaries are memoised even when a recursion cycle was cut; every place that issues queries iterates in a
+	// sorted order, so the memo contents (and therefore the facts) are the same on every run
 	e.memo[k] = sum
 	return sum
 }
@@ -752,57 +760,87 @@ func (e *flowEngine) index() {
 	}
 }
 
-// fieldSinks: sink kinds reachable from any read of field key (transitively through other fields).
-func (e *flowEngine) fieldSinks(key string, depth int) map[string]flabel {
+// fieldInfo: sinks reached directly from the reads of field key, and the fields those values are stored into.
+func (e *flowEngine) fieldInfo(key string) (map[string]flabel, map[string]bool) {
 	e.index()
-	if m, ok := e.fieldMemo[key]; ok {
-		return m
+	if e.fieldDir == nil {
+		e.fieldDir, e.fieldEdge = map[string]map[string]flabel{}, map[string]map[string]bool{}
 	}
-	if e.fieldProg[key] || depth > 6 {
-		return map[string]flabel{}
+	if d, ok := e.fieldDir[key]; ok {
+		return d, e.fieldEdge[key]
 	}
-	e.fieldProg[key] = true
-	out := map[string]flabel{}
+	dir := map[string]flabel{}
+	edges := map[string]bool{}
+	e.fieldDir[key], e.fieldEdge[key] = dir, edges
 	for _, fa := range e.fieldLoad[key] {
 		ins := fa.(ssa.Instruction)
 		fn := ins.Parent()
-		// only reads: the FieldAddr must be loaded somewhere (a pure store target contributes nothing, harmlessly)
 		sum := e.forward(fn, map[ssa.Value]flabel{fa: lRaw}, 1)
 		for k, l := range sum.sinks {
-			up(out, k, l)
+			up(dir, k, l)
 		}
 		for sk := range sum.stores {
-			if sk == key {
-				continue
-			}
-			for k, l := range e.fieldSinks(sk, depth+1) {
-				if !strings.HasPrefix(k, "store:") {
-					up(out, strings.TrimPrefix(k, "heap:"), l)
-				}
+			if sk != key {
+				edges[sk] = true
 			}
 		}
-		// the loaded value may also leave the function through a result
-		for j, l := range sum.rets {
-			for k, l2 := range e.escapeSinks(fn, j, l, 1) {
-				if !strings.HasPrefix(k, "store:") {
-					up(out, strings.TrimPrefix(k, "heap:"), l2)
+		for _, j := range sortedInts(sum.rets) {
+			l := sum.rets[j]
+			es, est := e.escapeInfo(fn, j, l, 1)
+			for k, l2 := range es {
+				up(dir, k, l2)
+			}
+			for sk := range est {
+				if sk != key {
+					edges[sk] = true
 				}
 			}
 		}
 	}
-	delete(e.fieldProg, key)
+	return dir, edges
+}
+
+// fieldSinks: sink kinds reachable from any read of field key, transitively through the fields the read values are
+// stored into (closure over the field graph: complete and independent of evaluation order).
+func (e *flowEngine) fieldSinks(key string, depth int) map[string]flabel {
+	if m, ok := e.fieldMemo[key]; ok {
+		return m
+	}
+	out := map[string]flabel{}
+	seen := map[string]bool{key: true}
+	work := []string{key}
+	for len(work) > 0 {
+		k := work[len(work)-1]
+		work = work[:len(work)-1]
+		dir, edges := e.fieldInfo(k)
+		for s, l := range dir {
+			up(out, s, l)
+		}
+		var es []string
+		for sk := range edges {
+			es = append(es, sk)
+		}
+		sort.Strings(es)
+		for _, sk := range es {
+			if !seen[sk] {
+				seen[sk] = true
+				work = append(work, sk)
+			}
+		}
+	}
 	e.fieldMemo[key] = out
 	return out
 }
 
-// escapeSinks: sinks reached in the callers of fn by its result idx (bounded depth).
-func (e *flowEngine) escapeSinks(fn *ssa.Function, idx int, l flabel, depth int) map[string]flabel {
+// escapeInfo: sinks and field stores reached in the callers of fn by its result idx (bounded depth).
+func (e *flowEngine) escapeInfo(fn *ssa.Function, idx int, l flabel, depth int) (map[string]flabel, map[string]bool) {
 	e.index()
-	out := map[string]flabel{}
+	sinks := map[string]flabel{}
+	stores := map[string]bool{}
 	if depth > 3 {
-		return out
+		return sinks, stores
 	}
-	sites := e.callSites[fn]
+	sites := append([]*ssa.Call{}, e.callSites[fn]...)
 	if o := fn.Origin(); o != nil && o != fn {
 		sites = append(sites, e.callSites[o]...)
 	}
@@ -815,21 +853,23 @@ func (e *flowEngine) escapeSinks(fn *ssa.Function, idx int, l flabel, depth int)
 		caller := cs.Parent()
 		sum := e.forwardFrom(caller, cs, idx, l, 1)
 		for k, l2 := range sum.sinks {
-			up(out, k, l2)
+			up(sinks, k, l2)
 		}
-		for sk, l2 := range sum.stores {
-			up(out, "store:"+sk, l2)
-			for k := range e.fieldSinks(sk, 0) {
-				up(out, heapKey(k), lDerived)
+		for sk := range sum.stores {
+			stores[sk] = true
+		}
+		for _, j := range sortedInts(sum.rets) {
+			l2 := sum.rets[j]
+			s2, st2 := e.escapeInfo(caller, j, l2, depth+1)
+			for k, l3 := range s2 {
+				up(sinks, k, l3)
 			}
-		}
-		for j, l2 := range sum.rets {
-			for k, l3 := range e.escapeSinks(caller, j, l2, depth+1) {
-				up(out, k, l3)
+			for sk := range st2 {
+				stores[sk] = true
 			}
 		}
 	}
-	return out
+	return sinks, stores
 }
 
 // ---------------------------------------------------------------------------
@@ -934,8 +974,13 @@ func (e *flowEngine) collectLocal(out map[string]flabel, sum *flowSummary) {
 			out[fmt.Sprintf("%s#raw#%d", k, nraw)] = lRaw
 		}
 	}
-	for sk, l := range sum.stores {
-		up(out, "store:"+sk, l)
+	var sks []string
+	for sk := range sum.stores {
+		sks = append(sks, sk)
+	}
+	sort.Strings(sks)
+	for _, sk := range sks {
+		up(out, "store:"+sk, sum.stores[sk])
 		for k := range e.fieldSinks(sk, 0) {
 			if !strings.HasPrefix(k, "store:") {
 				up(out, heapKey(k), lDerived)
@@ -1046,4 +1091,13 @@ func funcBaseName(f *ssa.Function) string {
 		n = n[:i]
 	}
 	return n
+}
+
+func sortedInts(m map[int]flabel) []int {
+	var ks []int
+	for k := range m {
+		ks = append(ks, k)
+	}
+	sort.Ints(ks)
+	return ks
 }
